@@ -166,13 +166,15 @@ class Ctx:
     # ------------------------------------------------------------------ constants translator
     def regen_consts(self):
         """Re-extract constants/tables from /repo's source text into coq/gen/Consts.v."""
-        rc, out = sh([sys.executable, os.path.join(VERIF, "tools", "extract_consts.py"), REPO],
-                     timeout=120)
+        p = subprocess.run([sys.executable, os.path.join(VERIF, "tools", "extract_consts.py"), REPO],
+                           stdout=subprocess.PIPE, stderr=subprocess.DEVNULL, text=True, timeout=120)
+        rc, out = p.returncode, p.stdout
         if rc != 0:
             self.tie_break("translator", "extract_consts",
-                           "constant extraction from the source failed (a pattern no longer "
-                           "matches):\n" + out[-3000:])
+                           "constant extraction from the source crashed:\n" + out[-3000:])
             return False
+        for m in re.findall(r"\(\* EXTRACTION FAILED: (.*?) \*\)", out):
+            self.log("translator: " + m + "  (the constant is left undefined; dependent proofs will not check)")
         path = os.path.join(COQ, "gen", "Consts.v")
         with Lock("coq"):
             old = open(path).read() if os.path.exists(path) else None
